@@ -88,6 +88,11 @@ func check(c Case) ev.Verdict {
 	if len(ops) == 0 || ops[0].Op != "add" || ops[0].Path == "" {
 		return ev.Excluded("first operation is not an add below the root")
 	}
+	for _, op := range ops {
+		if lib.BigIndex(op.Path) {
+			return ev.Excluded("array index above 10^4 under EnsurePathExistsOnAdd (quadratic padding; outside C04's stated domain)")
+		}
+	}
 	on := lib.Options{Neg: c.Neg, Esc: true, Ensure: true}
 	off := lib.Options{Neg: c.Neg, Esc: true}
 	want := ref.Apply(doc, ops, on.Ref())
